@@ -17,6 +17,9 @@ def corpus():
         "run prop=C09 mode=constant rate=3/100ms intervalms=100 dur=650 conc=10 body=1",
         "run prop=C09 mode=constant rate=2/200ms intervalms=200 dur=2400 conc=10 body=1 sloweval=2:120",   # one slow tick must not speed up the rest
         "run prop=C09 mode=constant rate=1/1us dur=1200 conc=256 body=0",
+        "run prop=C09 mode=constant rate=1/600us dur=600 conc=256 body=0",      # tick intervals below a millisecond that are not a divisor of it
+        "run prop=C09 mode=constant rate=1/400us dur=600 conc=256 body=0",
+        "run prop=C09 mode=constant rate=3/200ms intervalms=200 dur=1500 conc=1 body=450",   # a saturated pool: drops, and the progress report that mentions them, cost no evaluation
         "run prop=C09 mode=constant rate=40/1s dist=regular intervalms=100 dur=700 conc=10",
         # config-file stages: each stage's first tick comes no earlier than the durations of the stages before it
         "run prop=C09 mode=file dur=4000 conc=3 file=c:200:2/100ms;c:200:2/100ms;c:200:2/100ms;c:200:2/100ms;c:200:2/100ms;c:200:2/100ms body=1",
